@@ -43,3 +43,32 @@ Qed.
 
 Lemma valid_path_issuers_are_ca now anchors c p rest : ValidPath now anchors (c :: p :: rest) -> x_is_ca p = true.
 Proof. intros H. inversion H as [|? ? ? Hv Hi Hp]; subst. destruct Hi as (_ & _ & Hca). exact Hca. Qed.
+
+(* ---------- the same notion, EXECUTABLE (equivalence proved in Proofs/PathProofs.v) ---------- *)
+Definition xcert_eqb (a b : xcert) : bool :=
+  list_eqb Z.eqb (x_subject a) (x_subject b) && list_eqb Z.eqb (x_issuer a) (x_issuer b) &&
+  (x_not_before a =? x_not_before b) && (x_not_after a =? x_not_after b) && Bool.eqb (x_is_ca a) (x_is_ca b) &&
+  (x_key a =? x_key b) && (x_signed_by a =? x_signed_by b).
+
+Definition in_validity_b (now : Z) (c : xcert) : bool := (x_not_before c <=? now) && (now <? x_not_after c).
+Definition issued_by_b (c p : xcert) : bool :=
+  list_eqb Z.eqb (x_issuer c) (x_subject p) && (x_signed_by c =? x_key p) && x_is_ca p.
+
+(* depth-first search from certificate c: c is an anchor, or is issued by an anchor, or is issued by a presented
+   intermediate from which the search succeeds *)
+Fixpoint search (fuel : nat) (now : Z) (inter anchors : list xcert) (c : xcert) : bool :=
+  match fuel with
+  | O => false
+  | S f =>
+      in_validity_b now c &&
+      (existsb (xcert_eqb c) anchors
+       || existsb (fun a => issued_by_b c a && in_validity_b now a) anchors
+       || existsb (fun p => issued_by_b c p && search f now inter anchors p) inter)
+  end.
+
+Definition chain_acceptable_b (now : Z) (x5c anchors : list xcert) : bool :=
+  match x5c with
+  | [] => false
+  | leaf :: inter => search (S (S (length inter))) now inter anchors leaf
+  end.
+
